@@ -104,16 +104,19 @@ class EventSelectionMethod(
             It can be ``None`` if the event selection method does not depend on
             the sources.
         """
+        # Check the argument before changing anything, so that a rejected call
+        # leaves the event selection method as it was.
+        if shg_mgr is not None:
+            if not isinstance(shg_mgr, SourceHypoGroupManager):
+                raise TypeError(
+                    'The shg_mgr argument must be None or an instance of '
+                    'SourceHypoGroupManager! '
+                    f'Its current type is {classname(shg_mgr)}.')
+
         self._shg_mgr = shg_mgr
         self._src_arr = None
 
         if self._shg_mgr is not None:
-            if not isinstance(self._shg_mgr, SourceHypoGroupManager):
-                raise TypeError(
-                    'The shg_mgr argument must be None or an instance of '
-                    'SourceHypoGroupManager! '
-                    f'Its current type is {classname(self._shg_mgr)}.')
-
             self._src_arr = self.sources_to_array(
                 sources=self._shg_mgr.source_list)
 
@@ -1014,15 +1017,18 @@ class PsiFuncEventSelectionMethod(
             The new SourceHypoGroupManager instance, that should be used for
             this event selection method.
         """
+        # Check the number of sources before changing anything, so that a
+        # rejected call leaves the event selection method as it was.
+        if isinstance(shg_mgr, SourceHypoGroupManager):
+            n_sources = shg_mgr.n_sources
+            if n_sources != 1:
+                raise ValueError(
+                    'The `PsiFuncEventSelectionMethod.select_events` currently '
+                    'supports only a single source. It was called with '
+                    f'{n_sources} sources.')
+
         super().change_shg_mgr(
             shg_mgr=shg_mgr)
-
-        n_sources = self.shg_mgr.n_sources
-        if n_sources != 1:
-            raise ValueError(
-                'The `PsiFuncEventSelectionMethod.select_events` currently '
-                'supports only a single source. It was called with '
-                f'{n_sources} sources.')
 
     @property
     def psi_name(self):
